@@ -4,7 +4,7 @@
 From Coq Require Import String.
 From Coq Require Import List Ascii Bool NArith ZArith QArith.
 Require Import Model.Text Model.ParamTypes Model.Num Model.NumLex Model.Color Model.ExprTypes Model.Expr.
-Require Import Model.Ast Model.Scope Model.Ident Model.Fmt.
+Require Import Model.Ast Model.Scope Model.Ident Model.Fmt Gen.PLimits.
 Import ListNotations.
 Local Open Scope char_scope.
 
@@ -109,7 +109,8 @@ Fixpoint eval_value (fuel : nat) (sc : scope) (toks : list vtok) {struct fuel} :
   | S f => eval_toks (lookup_with (eval_value f sc) sc) (eval_value f sc) toks
   end.
 
-Definition value_fuel : nat := 64.
+(* Node.process gives up after this many rounds (regenerated from the source) *)
+Definition value_fuel : nat := process_round_limit.
 
 (* Property.preprocess: an Expression node is followed by a blank (except in `font`) *)
 Definition preprocess (prop : str) (val : list vtok) : list vtok :=
@@ -206,8 +207,8 @@ Require Import Model.Cases.
 Definition to_case_res (r : outcome str) : Cases.res :=
   match r with
   | ROk s => Ok s
-  | RError c _ => Err c
+  | RError c _ => Err $"CompilationError"          (* every SyntaxError registered during a compile is raised as CompilationError *)
   | REscaped t => Escaped t
-  | RFuel => OutOfFuel
+  | RFuel => Err $"CompilationError"               (* 'Recursive variable definition' *)
   end.
 Definition compile_case (o : opts) (units : list node) : Cases.res := to_case_res (compile_nodes o units).
